@@ -365,3 +365,8 @@ Print Assumptions C11_fault_example_reads_as_before.
 Theorem C11_source_delete_active_before_closed : Pearl.Generated.Facts.DELETE_ACTIVE_BEFORE_CLOSED = true.
 Proof. reflexivity. Qed.
 Print Assumptions C11_source_delete_active_before_closed.
+
+(* a failing read during the load of an index leaves the index as it was (structural fact re-extracted on every run; finding F33) *)
+Theorem C11_source_index_load_is_one_step : Pearl.Generated.Facts.INDEX_LOAD_REPLACES_RECORDS_AND_FILTERS_TOGETHER = true.
+Proof. reflexivity. Qed.
+Print Assumptions C11_source_index_load_is_one_step.
